@@ -141,6 +141,79 @@ fn diag_exactness_scaled(d: usize, cond: f64, base: f64, p: &mut Partial, tier: 
     }
 }
 
+/// One strategy object across three windows: W1 holds one explored alphabet value (finite junk,
+/// NaN, +-inf) in a draw or a gradient, W2 and W3 are draws of a Gaussian; after two switches the
+/// foreground holds W2 + W3 only, so the estimate must be that Gaussian's, exactly.
+fn diag_history(grad_based: bool, p: &mut Partial) {
+    let d = 3usize;
+    let sigma = [0.001, 1.0, 40.0];
+    let mu = [1.5, -0.7, 0.2];
+    let ts: Vec<Vec<f64>> = (0..6)
+        .map(|k| (0..d).map(|i| ((k as f64 + 1.0) * (0.83 + 0.29 * i as f64)).sin() * 1.7 + 0.11 * k as f64).collect())
+        .collect();
+    let pts: Vec<Vec<f64>> = ts.iter().map(|t| (0..d).map(|i| mu[i] + sigma[i] * t[i]).collect()).collect();
+    let grads: Vec<Vec<f64>> = pts.iter().map(|x| (0..d).map(|i| -(x[i] - mu[i]) / (sigma[i] * sigma[i])).collect()).collect();
+    for v in ALPHA.iter().copied().chain([7.5e3, -2.5e-4]) {
+        for j in 0..3usize {
+            for coord in 0..d {
+                for in_grad in [false, true] {
+                    let mut s = diag_sys(d, grad_based, &vec![1.0; d], &vec![0.0; d]);
+                    let replay = json!({"value": format!("{v:e}"), "draw": j, "coordinate": coord, "in_gradient": in_grad, "grad_based": grad_based});
+                    let key = format!("diag-history/{}/{}{j}[{coord}]={v:e}", if grad_based { "draw-grad" } else { "draw-only" }, if in_grad { "grad" } else { "draw" });
+                    p.evaluations += 1;
+                    let r = std::panic::catch_unwind(std::panic::AssertUnwindSafe(|| {
+                        for k in 0..3 {
+                            let mut x = pts[k + 1].clone();
+                            let mut g = grads[k + 1].clone();
+                            if k == j {
+                                if in_grad { g[coord] = v } else { x[coord] = v }
+                            }
+                            let c = nv::draw_grad_collector(&mut s.math, &x, &g, true);
+                            s.strat.update_estimators(&mut s.math, &c);
+                        }
+                        s.strat.switch(&mut s.math);
+                        for k in 0..3 {
+                            let c = nv::draw_grad_collector(&mut s.math, &pts[k], &grads[k], true);
+                            s.strat.update_estimators(&mut s.math, &c);
+                        }
+                        s.strat.switch(&mut s.math);
+                        for k in 3..6 {
+                            let c = nv::draw_grad_collector(&mut s.math, &pts[k], &grads[k], true);
+                            s.strat.update_estimators(&mut s.math, &c);
+                        }
+                        s.strat.adapt(&mut s.math, &mut s.mm)
+                    }));
+                    let Ok(changed) = r else {
+                        p.violation(format!("C08/estimator-panicked/{key}"), String::new(), replay);
+                        continue;
+                    };
+                    let stds = nv::diag_mass_matrix_stds(&s.mm, &mut s.math);
+                    // reference: a fresh strategy that only ever saw the two clean windows (and, for
+                    // the draw+gradient estimate, the Gaussian's own scales)
+                    let want: Vec<f64> = {
+                        let mut f = diag_sys(d, grad_based, &vec![1.0; d], &vec![0.0; d]);
+                        let _ = feed_diag(&mut f, &pts, &grads);
+                        nv::diag_mass_matrix_stds(&f.mm, &mut f.math).to_vec()
+                    };
+                    if grad_based && !(0..d).all(|i| mc_core::rel_close(want[i], sigma[i], 1e-8, 0.0)) {
+                        p.violation(format!("C08/diagonal-adaptation-not-exact-on-gaussian/{key}"), format!("fresh strategy: {want:?} vs {sigma:?}"), replay);
+                        continue;
+                    }
+                    if !(changed && (0..d).all(|i| mc_core::rel_close(stds[i], want[i], 1e-8, 0.0))) {
+                        p.violation(
+                            format!("C08/estimate-depends-on-a-window-that-was-switched-out/{key}"),
+                            format!("stds {:?} but the two windows in the foreground give {want:?} (changed={changed})", &stds[..]),
+                            replay,
+                        );
+                        continue;
+                    }
+                    p.class(format!("diag-history:{grad_based}"));
+                }
+            }
+        }
+    }
+}
+
 fn diag_degeneracy(p: &mut Partial, grad_based: bool, tier: Tier) {
     // dim 2: coordinate 0 gets the explored window, coordinate 1 a valid Gaussian window
     let prev_stds = [0.7, 1.9];
@@ -725,6 +798,7 @@ pub fn run(tier: Tier, _replay: Option<String>) -> i32 {
         DiagExactScaled(usize, f64),
         DiagWindows(bool),
         DiagInit,
+        DiagHistory(bool),
         LowRankExact(usize, usize, f64),
         LowRankSmallWindow(usize, usize, usize, f64),
         LowRankDefaultCutoff(usize, f64, bool),
@@ -782,6 +856,8 @@ pub fn run(tier: Tier, _replay: Option<String>) -> i32 {
     jobs.push(Job::DiagWindows(true));
     jobs.push(Job::DiagWindows(false));
     jobs.push(Job::DiagInit);
+    jobs.push(Job::DiagHistory(true));
+    jobs.push(Job::DiagHistory(false));
     for d in 2..=tier.pick(5usize, 8) {
         for k in 0..=d.min(3) {
             for cond in [1.0, 1e3] {
@@ -805,6 +881,7 @@ pub fn run(tier: Tier, _replay: Option<String>) -> i32 {
             Job::DiagExact(d, c) => diag_exactness(*d, *c, &mut p, tier),
             Job::DiagWindows(gb) => diag_degeneracy(&mut p, *gb, tier),
             Job::DiagInit => diag_init_degeneracy(&mut p),
+            Job::DiagHistory(g) => diag_history(*g, &mut p),
             Job::DiagExactScaled(d, b) => diag_exactness_scaled(*d, 1.0, *b, &mut p, tier),
             Job::LowRankExact(d, k, c) => lowrank_exactness(*d, *k, *c, &mut p),
             Job::LowRankSmallWindow(d, n, k, c) => lowrank_small_window(*d, *n, *k, *c, &mut p),
@@ -832,7 +909,7 @@ pub fn run(tier: Tier, _replay: Option<String>) -> i32 {
         p.transitions = p.evaluations;
         p.validated = p.evaluations;
         if p.samples.is_empty() {
-            p.sample(json!({"job": match j { Job::DiagExact(d, c) => format!("diag exactness d={d} cond={c:e}"), Job::DiagExactScaled(d, b) => format!("diag exactness d={d} base scale {b:e}"), Job::DiagWindows(g) => format!("diag windows grad_based={g}"), Job::DiagInit => "gradient initialiser".into(), Job::LowRankExact(d, k, c) => format!("low-rank exactness d={d} rank={k} cond={c:e}"), Job::LowRankSmallWindow(d, n, k, c) => format!("low-rank small window d={d} n={n} rank={k} cond={c:e}"), Job::LowRankDefaultCutoff(d, c, comp) => format!("low-rank default cut-off d={d} c={c} compressed={comp}"), Job::LowRankHistory(d, seq) => format!("low-rank update history d={d} {seq:?}"), Job::LowRankWindows => "low-rank windows".into(), Job::Closed(pr, d) => format!("closed loop {pr:?} d={d}"), Job::ClosedCorr(w, _) => format!("closed loop low-rank correlated target {w}") }}));
+            p.sample(json!({"job": match j { Job::DiagExact(d, c) => format!("diag exactness d={d} cond={c:e}"), Job::DiagExactScaled(d, b) => format!("diag exactness d={d} base scale {b:e}"), Job::DiagWindows(g) => format!("diag windows grad_based={g}"), Job::DiagInit => "gradient initialiser".into(), Job::DiagHistory(g) => format!("diag window history grad_based={g}"), Job::LowRankExact(d, k, c) => format!("low-rank exactness d={d} rank={k} cond={c:e}"), Job::LowRankSmallWindow(d, n, k, c) => format!("low-rank small window d={d} n={n} rank={k} cond={c:e}"), Job::LowRankDefaultCutoff(d, c, comp) => format!("low-rank default cut-off d={d} c={c} compressed={comp}"), Job::LowRankHistory(d, seq) => format!("low-rank update history d={d} {seq:?}"), Job::LowRankWindows => "low-rank windows".into(), Job::Closed(pr, d) => format!("closed loop {pr:?} d={d}"), Job::ClosedCorr(w, _) => format!("closed loop low-rank correlated target {w}") }}));
         }
         report.merge(p);
     });
